@@ -6,19 +6,19 @@ V = os.path.dirname(os.path.dirname(os.path.abspath(__file__)))
 
 # id -> (technique, level text, level note)
 CHECKS = {
- "C01": ("proptest generated source trees; oracle: independent text-splice model + reassembly of cold / warm / after-map() chunk streams",
+ "C01": ("proptest generated source trees; oracle: independent text-splice model + reassembly of cold / warm / after-map() chunk streams, source() re-asked on the streamed object after every round",
          "Generated-input search (multi-byte trees, wild sorted maps, replacement pools incl. beyond-end) against a reference model of source(); every chunk of every stream must carry text and the chunks must reassemble. Exploration: shows the property on every generated tree and history, not on all.",
          "Trusts the harness's splice model (spec::splice_text) and its tree builder; known finding W2 (char vs byte columns) is tolerated only in its exact shape."),
  "C02": ("proptest generated ASCII trees; oracle: true (line, column) of every byte from a scan of the reference text, in all four (columns, final_source) modes, on fresh objects and on one object cold / warm / after map(); thorough: libFuzzer+ASan target tree_c02 (bytes -> tree -> same oracle)",
          "Every reported chunk position and the returned end information are compared with positions computed from the reference text; final-source mode is reached through the verif::map_options hook.",
          "Trusts observe::positions and the reference text model."),
- "C03": ("proptest generated ASCII trees; differential: normal-mode chunk stream vs map() decoded by the harness's own VLQ decoder, per byte / per line; thorough: libFuzzer+ASan target tree_c03",
-         "Two code paths of the crate (normal streaming and final-source streaming + encoder) are compared on every byte of every generated tree, each on a fresh object.",
+ "C03": ("proptest generated ASCII trees; differential: normal-mode chunk stream vs map() decoded by the harness's own VLQ decoder, per byte / per line, on fresh objects and on one object in every order of stream / map / other column setting; thorough: libFuzzer+ASan target tree_c03",
+         "Two code paths of the crate (normal streaming and final-source streaming + encoder) are compared on every byte of every generated tree, each on a fresh object, and for trees with a CachedSource on one object in every call order.",
          "Trusts model::vlq::decode; K1 (SourceMapSource::map pass-through) is a listed known finding."),
- "C04": ("proptest generated trees over Raw/Original/Concat/Replace/Cached; oracle: independent byte-provenance model and tokenizer, on a fresh object and on one object asked twice; thorough: libFuzzer+ASan target tree_c04",
+ "C04": ("proptest generated trees over Raw/Original/Concat/Replace/Cached; oracle: independent byte-provenance model and tokenizer, on a fresh object and on one object asked with both column settings in both orders; thorough: libFuzzer+ASan target tree_c04",
          "map() is checked against ground truth computed without looking at the crate's chunking (where each output byte was copied from).",
          "Trusts model::prov (tokenizer written from the documented regular expression)."),
- "C05": ("proptest generated call histories (mutators interleaved with 13 observers, fork / switch over live clones; legs of <=12, 22-48 and 190-280 ops); oracle: reference replacement model + unobserved twin; thorough: libFuzzer+ASan target hist_c05",
+ "C05": ("proptest generated call histories (mutators interleaved with 13 observers, fork / switch over live clones; legs of <=12, 22-48, 190-280, monotone and >65536 ops; inner trees incl. binary leaves with invalid UTF-8); oracle: reference replacement model + unobserved twin; thorough: libFuzzer+ASan target hist_c05",
          "Stateful/model-based: after every observer the answer equals the stable-sort splice model; final state equals an unobserved twin (==, hash, text). A second leg uses >20 colliding replacements so that an unstable sort is observable.",
          "Trusts spec::splice_text."),
  "C06": ("proptest generated composites over SourceMapSource-rich children; differential child-alone vs child-in-ConcatSource, and an attribution model of the ReplaceSource splice",
@@ -27,13 +27,13 @@ CHECKS = {
  "C07": ("proptest generated trees incl. invalid UTF-8; oracle: reference text/bytes model; fault injection: writer failing after k bytes for every k",
          "All five views compared pairwise and with the model; the failing-writer fault point is enumerated exhaustively per generated tree.",
          "Trusts spec::model_bytes."),
- "C08": ("proptest generated (text, consistent map) pairs; oracle: lookup on the generated segment list; differential SourceMapSource vs user-defined source via stream_chunks_default",
+ "C08": ("proptest generated (text, consistent map) pairs, the source built through both option structs and named gen.js or like a file of the map; oracle: lookup on the generated segment list; differential SourceMapSource vs user-defined source via stream_chunks_default",
          "Attribution of every byte through three routes (normal stream, final-source stream, map() of an enclosing ConcatSource) equals lookup(M); declared tables equal M's.",
          "Trusts model::lookup."),
  "C09": ("proptest generated (outer map, inner map) pairs; oracle: reference composition over the generated segment lists",
          "Per-byte comparison of map() with a composition written from the statement (inner chunk located by the reference splitter).",
          "Trusts model::lookup::ref_chunks and the composition oracle in props/c09.rs; one detail (name compared with empty string on a missing line) is taken from the code."),
- "C10": ("proptest generated call histories over a CachedSource and two clones; oracle: never-cached twin built fresh from the same Spec; thorough: libFuzzer+ASan target hist_c10",
+ "C10": ("proptest generated call histories over a CachedSource and two clones; oracle: never-cached twin built fresh from the same Spec (incl. whether there is a map, for trees without a pass-through SourceMapSource); thorough: libFuzzer+ASan target hist_c10",
          "Stateful: after every call the answer equals the wrapped source's (text, bytes, size, end info, per-byte attribution); repeated map() calls must return the identical value.",
          "Attribution, not chunk lists, is compared (replay legitimately coarsens chunks)."),
  "C11": ("proptest generated ASCII trees; validity predicates over every produced map and chunk stream, on fresh objects and on one object asked twice; thorough: libFuzzer+ASan target tree_c11",
@@ -54,9 +54,9 @@ CHECKS = {
  "C16": ("proptest generated rope construction programs + exhaustive enumeration of small programs; oracle: flat String model (incl. byte_slice_unchecked inside its precondition and the iterators through std adaptors); thorough: libFuzzer+ASan target rope_prog",
          "Every observer of Rope compared with the String it stands for; all slice ranges of every generated rope; std's UB checks on (checked profile).",
          "Trusts model::rope_prog."),
- "C17": ("proptest generated mappings strings, mutated JSON bytes and wild source trees on two build profiles; thorough: libFuzzer+ASan targets decode/json/tree_prog; oracle: totality (no panic, parsers agree on accept/reject)",
+ "C17": ("proptest generated mappings strings, mutated JSON bytes and wild source trees (every method, typed clones of every composite node) on two build profiles; thorough: libFuzzer+ASan targets decode/json/tree_prog; oracle: totality (no panic, parsers agree on accept/reject)",
          "Every public entry point is driven with in-domain but hostile input on the overflow-checked build and again on the release-semantics build; coverage-guided campaigns extend the byte-level legs in the thorough tier.",
-         "A watchdog (300 s per case) turns a hang into exit 2 (inconclusive), never into a violation; known finding W2 is tolerated only in its exact shape and signature."),
+         "A watchdog (300 s per case) turns a slow case into exit 2 (inconclusive), never into a violation; only a case whose threads are all asleep without consuming CPU time for 40 watchdog ticks (blocked for good, e.g. a lock taken twice) is reported as a violation of 'never hangs'; known finding W2 is tolerated only in its exact shape and signature."),
  "C18": ("generated (program, schedule) pairs under a harness-owned cooperative scheduler driven through cfg-guarded schedule points; random schedules plus exhaustive enumeration of all schedules with <=2 preemptions per generated program; an unscheduled really-parallel leg; shared trees built cold or stale; oracle: single-threaded twin, deadlock detection, write-once cache hook + identity of handed-out maps; thorough: libFuzzer+ASan target sched_prog",
          "The schedule is the generated input: real threads run strictly one at a time and switch only at the library's shared-state accesses, lock acquisitions and callbacks into a user-defined child source. Exhaustive for the bounded-preemption schedules of each explored program, exploration over programs.",
          "Atomicity is assumed below the granularity of the schedule points (inside DashMap, OnceLock, Mutex, Arc); weak-memory reorderings are out of reach (the crate uses SeqCst and locks only)."),
